@@ -270,7 +270,8 @@ func recodable() map[string]bool {
 	}
 	var all []genSchema
 	json.Unmarshal(data, &all)
-	recog := map[string]bool{"types.V1Currency": true, "types.V1SiafundOutput": true, "types.SpendPolicy": true}
+	recog := map[string]bool{"types.V1Currency": true, "types.V1SiafundOutput": true, "types.SpendPolicy": true,
+		"types.V2FileContractResolution": true, "types.V2Transaction": true}
 	refs := map[string][]string{}
 	opaque := map[string]bool{}
 	var collect func(raw json.RawMessage, out *[]string)
@@ -338,6 +339,8 @@ func runC11(r *Run) {
 		c18Synthetic(r) // V2TransactionsMultiproof needs proofs valid for one state: generated here, round trip + model
 	}
 	c11StateLayout(r)
+	c11PolicyNesting(r)
+	c11TxnMasks(r)
 	rec := recodable()
 	nper := r.pick(60, 2500)
 	nrec := 0
@@ -410,7 +413,7 @@ func runC11(r *Run) {
 			}
 		}
 	}
-	r.Notes = append(r.Notes, fmt.Sprintf("%d wire types (exported EncodeTo/DecodeFrom pairs and rhp/v4 RPC objects), %d recomputed by the model (regular shape closure incl. recognised V1Currency, V1SiafundOutput, SpendPolicy)", len(allWireTypes()), nrec))
+	r.Notes = append(r.Notes, fmt.Sprintf("%d wire types (exported EncodeTo/DecodeFrom pairs and rhp/v4 RPC objects), %d recomputed by the model (regular shape closure incl. recognised V1Currency, V1SiafundOutput, SpendPolicy, V2FileContractResolution, V2Transaction)", len(allWireTypes()), nrec))
 	_ = rhp3.RPCError{}
 }
 
@@ -511,6 +514,81 @@ func c11StateLayout(r *Run) {
 		}
 		if !bytes.Equal(encAny(s3), b) {
 			r.violate("c11.state-unused-slots", "State at height %d: timestamp slots not in use influence the encoding", s.Index.Height)
+		}
+	}
+}
+
+// the policy decoder refuses nesting deeper than 32 thresholds and reads at most 255 children: chains of thresholds
+// around every leaf kind at depths on both sides of the limit, wide thresholds, unknown opcodes and versions, decoded
+// by the code and by the model (acceptance, re-encoding, bytes left)
+func c11PolicyNesting(r *Run) {
+	leaves := func() []types.SpendPolicy {
+		uc := types.UnlockConditions{Timelock: r.rng.Uint64(), SignaturesRequired: r.rng.Uint64()}
+		for i := 0; i < r.rng.IntN(3); i++ {
+			uc.PublicKeys = append(uc.PublicKeys, types.UnlockKey{Algorithm: types.SpecifierEd25519, Key: r.randBytes(r.rng.IntN(40))})
+		}
+		return []types.SpendPolicy{types.PolicyAbove(r.rng.Uint64()), types.PolicyAfter(time.Unix(int64(r.rng.Uint64()>>2), 0)),
+			types.PolicyPublicKey(types.PublicKey(r.randHash())), types.PolicyHash(r.randHash()), types.PolicyOpaque(types.PolicyAbove(r.rng.Uint64())),
+			{Type: types.PolicyTypeUnlockConditions(uc)}, types.PolicyThreshold(uint8(r.rng.IntN(256)), nil)}
+	}
+	depths := []int{0, 1, 2, 30, 31, 32, 33, 34, 40, 64}
+	for it := 0; it < r.pick(3, 40); it++ {
+		for _, d := range depths {
+			for _, leaf := range leaves() {
+				p := leaf
+				for k := 0; k < d; k++ {
+					of := []types.SpendPolicy{p}
+					if k == d/2 && r.rng.IntN(2) == 0 { // siblings at one level do not add depth
+						of = append(of, types.PolicyAbove(1), types.PolicyThreshold(0, nil))
+					}
+					p = types.PolicyThreshold(uint8(r.rng.IntN(3)), of)
+				}
+				b := encAny(p)
+				if r.rng.IntN(3) == 0 {
+					b = append(b, r.randBytes(1+r.rng.IntN(5))...) // bytes left for the caller
+				}
+				var q types.SpendPolicy
+				dd := types.NewBufDecoder(b)
+				q.DecodeFrom(dd)
+				r.count("oracle-policy-nesting")
+				depthOf := d
+				if _, isT := leaf.Type.(types.PolicyTypeThreshold); isT {
+					depthOf = d // an empty threshold at depth d reads no children
+				}
+				if (dd.Err() == nil) != (depthOf <= 32) {
+					r.violate("c11.policy-depth", "policy nested %d deep: decode error %v", d, dd.Err())
+				}
+				if dd.Err() == nil {
+					b2 := encAny(q)
+					if !bytes.Equal(b2, b[:len(b2)]) {
+						r.violate("c11.policy-depth", "policy nested %d deep re-encodes differently", d)
+					}
+					r.emit(true, "policy-nesting", "c11.recode", []string{hb([]byte("types.SpendPolicy")), hb(b)}, []string{"0", hb(b2), hx(uint64(len(b) - len(b2)))})
+				} else {
+					r.emit(false, "policy-nesting", "c11.decode", []string{hb([]byte("types.SpendPolicy")), hb(b)}, []string{"1"})
+				}
+			}
+		}
+		// wide thresholds: 255 children, and hostile headers (count byte larger than the children present, unknown opcode, wrong version)
+		var of []types.SpendPolicy
+		for i := 0; i < 255; i++ {
+			of = append(of, types.PolicyAbove(uint64(i)))
+		}
+		b := encAny(types.PolicyThreshold(uint8(r.rng.IntN(256)), of))
+		r.emit(true, "policy-nesting", "c11.recode", []string{hb([]byte("types.SpendPolicy")), hb(b)}, []string{"0", hb(b), "0"})
+		for _, mut := range []func([]byte){
+			func(x []byte) { x[3]-- }, func(x []byte) { x[0] = byte(r.rng.IntN(256)) }, func(x []byte) { x[1] = byte(r.rng.IntN(256)) },
+			func(x []byte) { x[4] = byte(8 + r.rng.IntN(248)) }, func(x []byte) { x[4] = 0 }} {
+			c := append([]byte(nil), b...)
+			mut(c)
+			var q types.SpendPolicy
+			dd := types.NewBufDecoder(c)
+			q.DecodeFrom(dd)
+			want := "0"
+			if dd.Err() != nil {
+				want = "1"
+			}
+			r.emit(dd.Err() == nil, "policy-nesting", "c11.decode", []string{hb([]byte("types.SpendPolicy")), hb(c)}, []string{want})
 		}
 	}
 }
